@@ -5,6 +5,9 @@ The state invariant `Inv` of the stream machine and its preservation by every pr
 namespace BV.Stream
 open BV.Bits
 
+/-- the configuration `compress_stream` sends to `compress_stream_fast` -/
+def fastMode (p : Params) : Prop := (p.quality = 0 ∨ p.quality = 1) ∧ p.catable = false ∧ p.magic = false
+
 /-- invariant of the encoder state between any two steps of the modelled loops -/
 structure Inv (s : St) : Prop where
   init : s.isInitialized = true
@@ -15,6 +18,8 @@ structure Inv (s : St) : Prop where
   lastFin : s.isLastBlockEmitted = true → s.streamState = .finished
   mdIff : (s.streamState = .metadataHead ∨ s.streamState = .metadataBody) ↔ s.remainingMetadata ≠ u32Max
   mdLe : s.remainingMetadata ≠ u32Max → s.remainingMetadata ≤ 16777216
+  q01 : (s.params.quality = 0 ∨ s.params.quality = 1) → s.lastFlushPos = s.lastProcessedPos
+  flushLf : s.streamState = .flushRequested → s.lastFlushPos = s.inputPos ∨ fastMode s.params
 
 def SState.isMd (t : SState) : Bool := t == .metadataHead || t == .metadataBody
 
@@ -32,8 +37,10 @@ theorem Inv.transfer {s s' : St} (hI : Inv s)
     (hmd : s'.streamState.isMd = s.streamState.isMd)
     (h1 : s'.lastFlushPos ≤ s'.lastProcessedPos) (h2 : s'.lastProcessedPos ≤ s'.inputPos)
     (h3 : s.lastProcessedPos ≤ s'.lastProcessedPos)
-    (h4 : s'.isLastBlockEmitted = true → s'.streamState = .finished) : Inv s' := by
-  refine ⟨hin.trans hI.init, h1, h2, hip ▸ hI.ip_lt, ?_, h4, ?_, ?_⟩
+    (h4 : s'.isLastBlockEmitted = true → s'.streamState = .finished)
+    (h5 : (s'.params.quality = 0 ∨ s'.params.quality = 1) → s'.lastFlushPos = s'.lastProcessedPos)
+    (h6 : s'.streamState = .flushRequested → s'.lastFlushPos = s'.inputPos ∨ fastMode s'.params) : Inv s' := by
+  refine ⟨hin.trans hI.init, h1, h2, hip ▸ hI.ip_lt, ?_, h4, ?_, ?_, h5, h6⟩
   · rw [blockSize_congr hp, hip]
     have := hI.blk
     omega
@@ -46,11 +53,13 @@ theorem Inv.of_frame {s s' : St} (hI : Inv s) (hf : s'.frame = s.frame)
     (hle : s'.isLastBlockEmitted = s.isLastBlockEmitted) : Inv s' := by
   rw [St.frame_eq_iff] at hf
   obtain ⟨f1, f2, f3, f4, f5, _, _⟩ := hf
-  refine hI.transfer (by rw [f1]) f2 f3 f5 (by rw [f4]) ?_ ?_ ?_ ?_
+  refine hI.transfer (by rw [f1]) f2 f3 f5 (by rw [f4]) ?_ ?_ ?_ ?_ ?_ ?_
   · rw [hlf, hlp]; exact hI.fl_le
   · rw [hlp, f2]; exact hI.lp_le
   · rw [hlp]; exact Nat.le_refl _
   · rw [hle, f4]; exact hI.lastFin
+  · rw [f1, hlf, hlp]; exact hI.q01
+  · rw [f4, hlf, f2, f1]; exact hI.flushLf
 
 theorem Inv.unprocessed {s : St} (hI : Inv s) : s.unprocessed = s.inputPos - s.lastProcessedPos :=
   wsub64_eq hI.lp_le hI.ip_lt
@@ -66,7 +75,7 @@ theorem inv_push {s s' : St} {io io' : Io} {b : Bool} (hI : Inv s)
 
 theorem inv_checkFlushComplete {s : St} (hI : Inv s) : Inv (checkFlushComplete s) := by
   obtain ⟨c1, c2, c3, c4, c5, c6, c7, _⟩ := checkFlushComplete_frame s
-  refine hI.transfer (by rw [c1]) c2 c3 c4 ?_ ?_ ?_ ?_ ?_
+  refine hI.transfer (by rw [c1]) c2 c3 c4 ?_ ?_ ?_ ?_ ?_ ?_ ?_
   · rw [checkFlushComplete_state]
     split
     · rename_i h; rw [h.1]; rfl
@@ -78,6 +87,12 @@ theorem inv_checkFlushComplete {s : St} (hI : Inv s) : Inv (checkFlushComplete s
     rw [c7] at h
     have := hI.lastFin h
     rw [checkFlushComplete_state, this]; simp
+  · rw [c1, c5, c6]; exact hI.q01
+  · intro h
+    rw [checkFlushComplete_state] at h
+    split at h
+    · cases h
+    · rw [c5, c2, c1]; exact hI.flushLf h
 
 theorem updateSizeHint_fields (s : St) (n : Nat) :
     (updateSizeHint s n).params.lgblock = s.params.lgblock ∧ (updateSizeHint s n).params.quality = s.params.quality
@@ -90,13 +105,20 @@ theorem updateSizeHint_fields (s : St) (n : Nat) :
     ∧ (updateSizeHint s n).lastBytesBits = s.lastBytesBits ∧ (updateSizeHint s n).lastBytes = s.lastBytes := by
   by_cases h : s.params.sizeHint = 0 <;> simp [updateSizeHint, h]
 
+theorem fastMode_updateSizeHint (s : St) (n : Nat) : fastMode (updateSizeHint s n).params ↔ fastMode s.params := by
+  obtain ⟨_, u2, u3, u4, _⟩ := updateSizeHint_fields s n
+  unfold fastMode
+  rw [u2, u3, u4]
+
 theorem inv_updateSizeHint {s : St} (hI : Inv s) (n : Nat) : Inv (updateSizeHint s n) := by
-  obtain ⟨u1, _, _, _, _, u6, u7, u8, u9, u10, u11, u12, _⟩ := updateSizeHint_fields s n
-  refine hI.transfer u1 u6 u7 u8 (by rw [u9]) ?_ ?_ ?_ ?_
+  obtain ⟨u1, u2, _, _, _, u6, u7, u8, u9, u10, u11, u12, _⟩ := updateSizeHint_fields s n
+  refine hI.transfer u1 u6 u7 u8 (by rw [u9]) ?_ ?_ ?_ ?_ ?_ ?_
   · rw [u10, u11]; exact hI.fl_le
   · rw [u11, u6]; exact hI.lp_le
   · rw [u11]; exact Nat.le_refl _
   · rw [u12, u9]; exact hI.lastFin
+  · rw [u2, u10, u11]; exact hI.q01
+  · rw [u9, u10, u6, fastMode_updateSizeHint]; exact hI.flushLf
 
 theorem ensureInitialized_id {s : St} (h : s.isInitialized = true) : ensureInitialized s = s := by
   simp [ensureInitialized, h]
@@ -134,10 +156,16 @@ theorem inv_encode {o : Oracle} {s s1 : St} {site : Nat} {il ff : Bool} {req : R
   have hl := encodeData_latch h
   rw [St.frame_eq_iff] at f
   obtain ⟨f1, f2, f3, f4, f5, _, _⟩ := f
-  refine hI.transfer (by rw [f1]) f2 f3 f5 (by rw [f4]) p1 (by rw [f2]; exact p3) p2 ?_
-  intro hle
-  rw [hl, hil] at hle
-  exact absurd hle (by simp)
+  refine hI.transfer (by rw [f1]) f2 f3 f5 (by rw [f4]) p1 (by rw [f2]; exact p3) p2 ?_ ?_ ?_
+  · intro hle
+    rw [hl, hil] at hle
+    exact absurd hle (by simp)
+  · rw [f1]; intro hq; exact encodeData_q01 h hq (hI.q01 hq)
+  · rw [f4, f2, f1]
+    intro hfl
+    rcases hI.flushLf hfl with hh | hh
+    · left; omega
+    · exact Or.inr hh
 
 /-- `encode_data` from `compress_stream` (stream state PROCESSING) followed by the marking -/
 theorem inv_encode_mark {o : Oracle} {s s1 : St} {site : Nat} {il ff : Bool} {req : Req} (hI : Inv s)
@@ -149,7 +177,7 @@ theorem inv_encode_mark {o : Oracle} {s s1 : St} {site : Nat} {il ff : Bool} {re
   rw [St.frame_eq_iff] at f
   obtain ⟨f1, f2, f3, f4, f5, _, _⟩ := f
   obtain ⟨k1, k2, k3, k4, k5, k6, k7, _, _, k10⟩ := markAfterEncode_fields s1 il ff
-  refine hI.transfer (by rw [k1, f1]) (k2.trans f2) (k3.trans f3) (k4.trans f5) ?_ ?_ ?_ ?_ ?_
+  refine hI.transfer (by rw [k1, f1]) (k2.trans f2) (k3.trans f3) (k4.trans f5) ?_ ?_ ?_ ?_ ?_ ?_ ?_
   · rw [k10, hst, f4, hst]
     cases il <;> cases ff <;> rfl
   · rw [k5, k6]; exact p1
@@ -158,5 +186,15 @@ theorem inv_encode_mark {o : Oracle} {s s1 : St} {site : Nat} {il ff : Bool} {re
   · intro hle
     rw [k7, hl] at hle
     rw [k10, hle]; rfl
+  · rw [k1, f1, k5, k6]; intro hq; exact encodeData_q01 h hq (hI.q01 hq)
+  · rw [k10, k5, k2, f2]
+    intro hfl
+    have hff : il = true ∨ ff = true := by
+      cases il
+      · cases ff
+        · simp only [Bool.false_eq_true, ↓reduceIte] at hfl; rw [f4, hst] at hfl; cases hfl
+        · exact Or.inr rfl
+      · exact Or.inl rfl
+    exact Or.inl (encodeData_forced h hff hI.fl_le hI.lp_le hI.ip_lt hI.q01)
 
 end BV.Stream
